@@ -632,7 +632,7 @@ variant("readerror-helper",
 			return c.readFailed(err)
 		}"""),
   ("server.go", "func (s *Server) network() string {", "// readFailed answers a failed read of a command line; the caller ends the connection.\nfunc (c *Conn) readFailed(err error) error {\n	if err == io.EOF || errors.Is(err, net.ErrClosed) {\n		return nil\n	}\n	if err == ErrTooLongLine {\n		c.writeResponse(500, EnhancedCode{5, 4, 0}, \"Too long line, closing connection\")\n		return nil\n	}\n\n	if neterr, ok := err.(net.Error); ok && neterr.Timeout() {\n		c.writeResponse(421, EnhancedCode{4, 4, 2}, \"Idle timeout, bye bye\")\n		return nil\n	}\n\n	c.writeResponse(421, EnhancedCode{4, 4, 0}, \"Connection error, sorry\")\n	return err\n}\n\nfunc (s *Server) network() string {"))
-alarming("client-mailcmd-helper",
+variant("client-mailcmd-helper",
   ("client.go", """	_, _, err := c.cmd(250, "%s", sb.String())
 	return err
 }
